@@ -18,13 +18,13 @@ import (
 
 type flowRef struct {
 	Comment string                         `json:"comment"`
-	Sources map[string]map[string][]string `json:"sources"` // area -> "func | source key" -> required facts ("Kind:label", "heap:Kind")
-	Params  map[string]map[string][]string `json:"params"`  // area -> "func | param#i" -> required facts
+	Sources map[string]map[string][]string `json:"sources"`          // area -> "func | source key" -> required facts ("Kind:label", "heap:Kind")
+	Params  map[string]map[string][]string `json:"params"`           // area -> "func | param#i" -> required facts
 	Relax   []string                       `json:"relaxing_options"` // option constructors documented as unsafe: they switch constraints off
 	RelaxOK map[string]map[string]int      `json:"relaxing_sites"`   // area -> function -> reviewed number of call sites passing such an option
-	FnMust  map[string]map[string][]string `json:"fnmust"`  // area -> "func | must-sites" -> "Kind#n": constraint sites executed on every successful path
-	FnSites map[string]map[string][]string `json:"fnsites"` // area -> "func | hint-sites" -> "Kind#n": distinct sink sites reached by the function's hint outputs
-	Exempt  map[string]string              `json:"exempt"`  // "func | source key" -> reason (FLOW-SOME exemptions)
+	FnMust  map[string]map[string][]string `json:"fnmust"`           // area -> "func | must-sites" -> "Kind#n": constraint sites executed on every successful path
+	FnSites map[string]map[string][]string `json:"fnsites"`          // area -> "func | hint-sites" -> "Kind#n": distinct sink sites reached by the function's hint outputs
+	Exempt  map[string]string              `json:"exempt"`           // "func | source key" -> reason (FLOW-SOME exemptions)
 }
 
 func loadFlowRef() (*flowRef, error) {
@@ -43,7 +43,7 @@ type srcFacts struct {
 	src      *flowSource
 	facts    map[string]flabel
 	sites    map[string]map[string]siteCnt // kind -> local site -> call paths to sinks
-	children []*srcFacts                // same-package call sites receiving the escaping value
+	children []*srcFacts                   // same-package call sites receiving the escaping value
 }
 
 // constrained: the source reaches a sink itself, or every same-package call site that receives it does.
@@ -151,7 +151,6 @@ func sinkFacts(f map[string]flabel) []string {
 	sort.Strings(ks)
 	return ks
 }
-
 
 // fset: sink facts with per-kind site counts.
 type fset struct {
@@ -334,30 +333,42 @@ func fnSites(srcs map[string][]*srcFacts) map[string]map[string]int {
 			if sf.src.kind != "hint" {
 				continue
 			}
-			// the sites reached by this hint's outputs are attributed to the function that calls the hint and to
-			// every same-package function its outputs are returned to (so that moving the hint call and its local
-			// checks into a helper leaves the caller's count unchanged)
-			tops := map[*ssa.Function]bool{}
-			var owners func(x *srcFacts, d int)
-			owners = func(x *srcFacts, d int) {
-				top := x.src.fn
-				for top.Parent() != nil {
-					top = top.Parent()
+			// the sites reached by this hint's outputs are attributed to the function that calls the hint (its own
+			// sites and those of every receiver) and, for every same-package function the outputs are returned to,
+			// the hint-local sites plus what happens in and below that receiver — not what other receivers do (so that
+			// moving the hint call and its local checks into a helper, or inlining such a helper, leaves the count
+			// of the function unchanged)
+			top := sf.src.fn
+			for top.Parent() != nil {
+				top = top.Parent()
+			}
+			if per[top] == nil {
+				per[top] = acc{}
+			}
+			collect(per[top], sf, 0, map[*srcFacts]bool{})
+			var recv func(x *srcFacts, d int)
+			recv = func(x *srcFacts, d int) {
+				if d >= 3 {
+					return
 				}
-				tops[top] = true
-				if d < 3 {
-					for _, c := range x.children {
-						owners(c, d+1)
+				for _, c := range x.children {
+					ct := c.src.fn
+					for ct.Parent() != nil {
+						ct = ct.Parent()
 					}
+					if ct != top {
+						if per[ct] == nil {
+							per[ct] = acc{}
+						}
+						// hint-local sites + the receiver's subtree
+						loc := &srcFacts{src: sf.src, sites: sf.sites}
+						collect(per[ct], loc, 0, map[*srcFacts]bool{})
+						collect(per[ct], c, 0, map[*srcFacts]bool{})
+					}
+					recv(c, d+1)
 				}
 			}
-			owners(sf, 0)
-			for top := range tops {
-				if per[top] == nil {
-					per[top] = acc{}
-				}
-				collect(per[top], sf, 0, map[*srcFacts]bool{})
-			}
+			recv(sf, 0)
 		}
 	}
 	out := map[string]map[string]int{}
@@ -420,7 +431,17 @@ func factList(f *fset) []string {
 	return ks
 }
 
+// heapAreas: areas whose constraints are emitted by deferred mechanisms (emulated mul checks, range-check and
+// lookup commitments, GKR); only there are "heap:Kind" facts (reachability through gadget-state fields) required.
+// Elsewhere they are artefacts of the field-based heap (any store into a struct field links everything read from
+// that field anywhere) and change with harmless restructuring.
+var heapAreas = map[string]bool{"C12": true, "C13": true, "C19": true}
+var curFlowArea string
+
 func (f *fset) has(req string) bool {
+	if strings.HasPrefix(req, "heap:") && !heapAreas[curFlowArea] {
+		return true
+	}
 	if i := strings.Index(req, "#raw#"); i > 0 {
 		var n int
 		fmt.Sscanf(req[i+5:], "%d", &n)
@@ -448,6 +469,7 @@ func (f *fset) has(req string) bool {
 
 // RunFlow evaluates FLOW-SOME and FLOW-REF for one area.
 func RunFlow(p *Prog, r *Report, e *flowEngine, area string, scope func(pkg string) bool, minSources int) {
+	curFlowArea = area
 	ref, err := loadFlowRef()
 	if err != nil {
 		r.Fail("UNRESOLVED", "-", "-", "rules/flow.json", "-", err.Error())
@@ -497,7 +519,30 @@ func RunFlow(p *Prog, r *Report, e *flowEngine, area string, scope func(pkg stri
 		parts := strings.SplitN(k, " | ", 2)
 		cur, ok := agg[k]
 		if !ok {
-			r.Fail("FLOW-REF", parts[0], "-", parts[len(parts)-1], "-", "reviewed source no longer exists in this package (hint call removed or its function renamed): its constraints cannot be confirmed")
+			// renamed hint function / moved source: a source of the same package that is not in the reference and
+			// satisfies every reviewed fact of the missing one takes its place
+			var repl []string
+			for ck, cf := range agg {
+				if _, known := areaRef[ck]; known || !strings.HasPrefix(ck, parts[0]+" | ") {
+					continue
+				}
+				all := true
+				for _, q := range req {
+					if !cf.has(q) {
+						all = false
+					}
+				}
+				if all {
+					repl = append(repl, ck)
+				}
+			}
+			sort.Strings(repl)
+			if len(repl) > 0 {
+				m := members[repl[0]][0]
+				r.Pass("FLOW-REF", FuncPkg(m.src.fn).Path(), FuncName(m.src.fn), parts[len(parts)-1], p.Pos(m.src.call.Pos()), "reviewed source not found under its name; the unreviewed source "+strings.SplitN(repl[0], " | ", 2)[1]+" of the same package reaches all its reviewed sinks (renamed)", true)
+				continue
+			}
+			r.Fail("FLOW-REF", parts[0], "-", parts[len(parts)-1], "-", "reviewed source no longer exists in this package (hint call removed or its function renamed) and no other source of the package reaches its reviewed sinks: its constraints cannot be confirmed")
 			continue
 		}
 		m := members[k][0]
